@@ -116,6 +116,9 @@ def cases(rng, quick):
                 if N == 3:
                     add("hosford", N, [rng.choice([6., 8.])], coalescing_stress(rng, N, which, False), ":eqd")
                     add("barlat", N, [1.] * 18 + [rng.choice([6., 8.])], coalescing_stress(rng, N, which, False), ":unit:eqd")
+                    # explicit Jacobi solver on a diagonal tensor: eigenvalues in storage order => branch (0,1), (0,2), (1,2)
+                    add("hosford_j", N, [rng.choice([6., 8.])], coalescing_stress(rng, N, which, False), ":eqd")
+                    add("barlat_j", N, [1.] * 18 + [rng.choice([6., 8.])], coalescing_stress(rng, N, which, False), ":unit:eqd")
     return out
 
 
@@ -147,7 +150,7 @@ def judge(cs, rows):
     for cid, crit, N, p, s in cs:
         d = rows.get(cid)
         fam = cid.split("#")[0]
-        base = crit.replace("_int", "")
+        base = crit.replace("_int", "").replace("_j", "")
         replay = {"criterion": crit, "N": N, "parameters": p, "stress_mandel_components": s, "case": fam,
                   "replay": "echo '%s %s %d %d %s %s' | work/C22/c22fdcheck" % (cid, crit, N, len(p), " ".join("%.17g" % x for x in p), " ".join("%.17g" % x for x in s))}
         if d is None or "error" in d:
@@ -164,6 +167,10 @@ def judge(cs, rows):
             tol = TOL_SPECIAL.get((base, m), TOL.get(m))
             if tol is None:
                 continue
+            if m == "dfd" and ":eq" in fam:
+                # coalescing principal stresses: the default (Cardano based) eigen-solver loses ~half of the digits near a
+                # double eigenvalue, also at the finite-difference points (measured clean maximum 7.4e-6)
+                tol *= 10
             e = report.setdefault("%s/N%d" % (base, N), {})
             if not math.isnan(v):
                 e[m] = max(e.get(m, 0.), v)
